@@ -3,22 +3,50 @@ package rtcheck
 import (
 	"runtime"
 	"sync"
+	"sync/atomic"
+	"time"
 )
 
 // parallel runs f(i) for i in [0,n) on all cores; f must only touch its own slot of any result slice.
-func parallel(n int, f func(i int)) {
+func parallel(n int, f func(i int)) { parallelTimeout(n, 0, f) }
+
+// parallelTimeout is parallel with a watchdog: an item that does not finish within d (d > 0) is
+// abandoned (its goroutine keeps spinning) and reported in hung. After 8 abandoned items no new
+// ones are started: the machine is then mostly busy with runaway executions.
+func parallelTimeout(n int, d time.Duration, f func(i int)) (hung []int, skipped int) {
 	w := runtime.NumCPU()
 	if w > n {
 		w = n
 	}
 	var wg sync.WaitGroup
+	var mu sync.Mutex
+	var nHung int32
 	ch := make(chan int)
 	for k := 0; k < w; k++ {
 		wg.Add(1)
 		go func() {
 			defer wg.Done()
 			for i := range ch {
-				f(i)
+				if atomic.LoadInt32(&nHung) >= 8 {
+					mu.Lock()
+					skipped++
+					mu.Unlock()
+					continue
+				}
+				if d <= 0 {
+					f(i)
+					continue
+				}
+				done := make(chan struct{})
+				go func() { f(i); close(done) }()
+				select {
+				case <-done:
+				case <-time.After(d):
+					atomic.AddInt32(&nHung, 1)
+					mu.Lock()
+					hung = append(hung, i)
+					mu.Unlock()
+				}
 			}
 		}()
 	}
@@ -27,4 +55,5 @@ func parallel(n int, f func(i int)) {
 	}
 	close(ch)
 	wg.Wait()
+	return
 }
